@@ -1,4 +1,4 @@
-"""L0/L1: field kernel, region kernels, XOR kernel, CRC kernel."""
+"""L0/L1: field kernel, region kernels, XOR kernel."""
 from lib.vf import Job
 
 RSV = "src/builtin/rs_vand/liberasurecode_rs_vand.c"
@@ -52,4 +52,16 @@ def jobs(tier, seed):
                  title="fast_memcpy: dst[g_t] == src[g_t], frame dst[0..size)", functions=["fast_memcpy"], replay=kreplay("fast_memcpy", [XOR]),
                  repo_src=[XOR], harness=["harness/k_fast_memcpy.c"], enforce=("fast_memcpy", "c_fast_memcpy"),
                  expect=["c_fast_memcpy.postcondition"], assumptions=["libc memcpy meets its ISO C contract (CBMC built-in model)"]))
+    J.append(Job("rsv.region_dot_product", props=["C01", "C02", "C03", "C04", "C15"], layer="L1", strength="Pinf",
+                 title="region_dot_product: to_buf word == old ^ XOR_i GFAPPLY(from_i word, row[i]); num_entries symbolic in [0,32], blocksize symbolic; callees by contract",
+                 functions=["region_dot_product"], replaced=["region_xor (contract)", "region_multiply (contract)"],
+                 repo_src=[RSV], remove_bodies=["region_xor", "region_multiply"],
+                 harness=["harness/k_region_dot_product.c", "harness/stub_region.c"],
+                 unwind=34, expect=["region_dot_product.ensures", "region_multiply.requires", "region_xor.requires"],
+                 assumptions=[A_GF], timeout=900))
+    J.append(Job("gf.native", props=["C04", "C01", "C02", "C03"], layer="L0", strength="native", kind="native",
+                 bound="exhaustive over all 2^32 operand pairs, executed natively (gcc -O2 -fopenmp) on /repo's rs_galois.c; a bounded stand-in, not a verifier proof",
+                 title="rs_galois_mult/div/inverse == GF(2^16)/0x1100b shift-xor specification on the whole domain",
+                 functions=["rs_galois_mult", "rs_galois_div", "rs_galois_inverse", "rs_galois_init_tables"],
+                 repo_src=[GAL], harness=["harness/native_gf.c"], native={}, timeout=1200, mem_gb=2, weight=10 ** 6))
     return J
